@@ -175,6 +175,12 @@ class Parser:
             else:
                 raise Exception(f"Internal Parser Exception: {top}")
 
+    def run_pending_actions(self):
+        """Runs the actions on top of the stack (e.g. the RecordEnd actions of
+        a value that has just been read completely)"""
+        while self.stack and isinstance(self.stack[-1], Action):
+            self.action_function(self.stack.pop())
+
     def pop_symbol(self):
         return self.stack.pop()
 
